@@ -957,6 +957,16 @@ func (vf *VFlow) allocElems(l string, fl uint8, out LabelSet, seen map[string]bo
 								vf.walk(x.Val, fl, out, seen, depth+1)
 							}
 						}
+					case *ssa.Call:
+						// copy(dst, src): the elements of src become elements of dst
+						if bi, isB := x.Call.Value.(*ssa.Builtin); isB && bi.Name() == "copy" && len(x.Call.Args) == 2 {
+							if _, has := vf.objLabels(x.Call.Args[0], depth+1)[l]; has {
+								n++
+								for sl := range vf.objLabels(x.Call.Args[1], depth+1) {
+									vf.elemOf(sl, fl, out, seen, depth+1)
+								}
+							}
+						}
 					}
 				}
 			}
